@@ -29,7 +29,7 @@ RULE = ("histories of 4-50 operations on a generated font (built in memory / loa
         "saved): every attribute setter and container mutator of Glyph, Anchor, Guideline, Image, Component, Contour, "
         "Layer, LayerSet, Font, Info, Features, Lib/Kerning/Groups and ImageSet with generated values (>= 20 % "
         "same-value repeats), scripted scenarios at known positions (margins with and without vertical origin, undo of "
-        "a delete, rename away and back, delete then re-create under the old name, clear-all, layer default/order/"
+        "a delete, rejected insert of a duplicate identifier, rename away and back, delete then re-create under the old name, clear-all, layer default/order/"
         "rename/delete, user hold brackets, edit-read-save, image and layer colour, contour reversal, dict items, "
         "image set, font guidelines) plus one fixed history that visits every recorded call site; every delivery is "
         "recorded by an early and a late observer that evaluate the getter inside the callback; non-trivial = at "
@@ -43,13 +43,15 @@ ASSUMPTIONS = [
     "4-tuples or UFO strings for colours); floats are compared with a 1e-9 tolerance",
     "renaming a glyph or layer onto an existing name, deleting the default layer, and cyclic component references "
     "are outside the domain (the adaptor skips them)",
-    "a composite assignment (glyph.anchors = ..., font.guidelines = ..., copyDataFromGlyph) stopped half way by a "
-    "rejected element never releases the hold it imposed on itself (the object stays mute); the harness releases "
-    "that hold after the failed call and does not judge the call",
+    "a composite (glyph.anchors = ..., font.guidelines = ..., copyDataFromGlyph, Layer.insertGlyph, decompose*) "
+    "stopped half way by a rejected element is not judged; should such a call leave the hold it imposed on itself "
+    "unreleased (the assignments and insertGlyph release it in a finally clause since 67bac07), the harness "
+    "releases it after the failed call",
     "python asserts enabled (no -O)",
     "margin setters are judged from fresh component-bounds caches (the harness calls destroyAllRepresentations() on "
-    "the glyph's components first): stale caches after the base glyph was inserted / renamed / deleted are C03's "
-    "finding F11, not a payload defect",
+    "the glyph's components first): a base glyph REPLACED by newGlyph/insertGlyph over its name leaves the "
+    "components' cached bounds stale (they observe the old, detached glyph object) - C03/C11's subject, not a "
+    "payload defect",
     "notifications sent while objects are CREATED by the operation (lazy loading, instantiateAnchor(dict), "
     "copyDataFromGlyph's new objects) have no 'before': only their new value is judged",
 ]
@@ -88,7 +90,7 @@ def op_name(op):
         return cls + ".__setitem__"
     if k == "delitem":
         return cls + ".__delitem__"
-    if k in ("clear", "update"):
+    if k in ("clear", "update", "setdefault", "pop"):
         return "%s.%s" % (cls, k)
     if k == "call":
         m = op[2]
@@ -572,8 +574,12 @@ def gen_op(rng, focus=None):
         else:
             key = rng.choice(["com.a.k1", "com.a.k2", "org.b.flag", "public.x"])
             val = rng.choice([2, 3, "s1", [1, 2], {"n": 4}, True, None])
-        if m < 0.6:
+        if m < 0.55:
             return ["setitem", t, key, val]
+        if m < 0.62:
+            return ["setdefault", t, key, val]
+        if m < 0.68:
+            return ["pop", t, key]
         if m < 0.8:
             return ["delitem", t, key]
         if m < 0.9:
@@ -615,6 +621,27 @@ def scenario(rng, kind):
         return [ins, ["call", g, "remove" + what.capitalize(), 0], ["call", g, "reinsert", what, 0],
                 ["call", g, "remove" + what.capitalize(), 0], ["call", g, "removeForeign", what, 0],
                 ["call", g, "reinsert", what, 1]]
+    if kind == "rejected-insert":
+        # an object whose identifier is taken is rejected: it must not have been announced
+        i = "id%d" % rng.randint(0, 5)
+        what = rng.choice(["anchor", "guideline", "component", "contour", "fguideline"])
+        if what == "anchor":
+            return [["call", g, "insertAnchor", 0, {"x": 1, "y": 2, "identifier": i}, "dict"],
+                    ["call", g, "insertAnchor", 1, {"x": 3, "y": 4, "identifier": i}, "object"],
+                    ["call", g, "insertAnchor", 0, {"x": 5, "y": 6, "identifier": i}, "dict"]]
+        if what == "guideline":
+            return [["call", g, "insertGuideline", 0, {"x": 1, "identifier": i}, "object"],
+                    ["call", g, "insertGuideline", 1, {"y": 4, "identifier": i}, "object"],
+                    ["call", g, "insertAnchor", 0, {"x": 5, "y": 6, "identifier": i}, "object"]]
+        if what == "component":
+            return [["call", g, "insertComponent", 0, "A", [1, 0, 0, 1, 0, 0], i, False],
+                    ["call", g, "insertComponent", 0, "B", [1, 0, 0, 1, 1, 1], i, False]]
+        if what == "contour":
+            c1, c2 = gen_contour_spec(rng), gen_contour_spec(rng)
+            c1["id"], c2["id"], c1["owned"], c2["owned"] = i, i, False, False
+            return [["call", g, "insertContour", 0, c1], ["call", g, "insertContour", 0, c2]]
+        return [["call", ["font"], "insertGuideline", 0, {"x": 1, "identifier": i}, "object"],
+                ["call", ["font"], "insertGuideline", 0, {"y": 2, "identifier": i}, "object"]]
     if kind == "rename-back":
         n1, n2 = rng.sample(["new1", "new2", "zz"], 2)
         return [["set", g, "name", n1], ["touch", g], ["set", g, "name", n2], ["set", g, "name", n1],
@@ -680,7 +707,7 @@ def scenario(rng, kind):
     raise ValueError(kind)
 
 
-SCENARIOS = ["margins", "undo-delete", "rename-back", "delete-recreate", "clear-all", "layers", "hold-bracket",
+SCENARIOS = ["margins", "undo-delete", "rejected-insert", "rename-back", "delete-recreate", "clear-all", "layers", "hold-bracket",
              "edit-read-save", "image", "contours", "dicts", "images", "font-guidelines"]
 
 
@@ -755,7 +782,7 @@ def _lines_worker(case):
 
 def generate(rng, tier):
     import multiprocessing
-    n, maxops = (1200, 26) if tier == "quick" else (12000, 50)
+    n, maxops = (800, 26) if tier == "quick" else (8000, 50)
     cases = [known_sites_case("memory"), known_sites_case("disk")]
     for i in range(n):
         cases.append(gen_case(rng, maxops))
@@ -878,10 +905,13 @@ def run_world(case, per_op=None):
                     list(g)
                     if op[0] == "set" and op[1][0] == "glyph" and op[2].endswith("Margin"):
                         margins_of = g
-                        # margins are computed from cached component bounds, which defcon does not evict when the
-                        # base glyph is added, renamed or deleted (C03's finding F11): start from fresh caches
+                        # margins are computed from cached component bounds.  defcon evicts them when the base glyph
+                        # is edited, renamed, deleted or added (32fccc7) but NOT when it is REPLACED by newGlyph /
+                        # insertGlyph over an existing name (the component keeps observing the old, detached glyph
+                        # object: F16's territory, C03/C11) - start from fresh caches
                         for c in g.components:
                             c.destroyAllRepresentations()
+
                 if op[0] == "call" and op[2] in ("copyDataFromGlyph", "insertGlyph"):
                     list(w.glyph_at(op[3], op[4]))
             except Exception:
